@@ -83,10 +83,13 @@ struct CostProgram
     double l_k[kMaxDim] = {};
     double o_e = 0, o_sig2 = 1;              // o_e exp(-|p - (o0 + o1 tg)|^2 / o_sig2)
     double o0[kMaxDim] = {}, o1[kMaxDim] = {};
+    double wn_w = 0, wn_0 = 0, wn_1 = 1;     // wn_w ((tg-wn_0)(wn_1-tg))^3 |p - wn_c|^2 inside the window (wn_0, wn_1), exactly zero outside
+    double wn_c[kMaxDim] = {};
     double dl_w = 0, dl_t = 0;               // dl_w max(0, tg - dl_t)^3 (1 + 0.1 |v|^2): a time-window penalty, exactly zero before the deadline
     double seg_w = 0;                        // whole running cost multiplied by (1 + seg_w (i mod 5))
     bool usesClass[5] = {false, false, false, false, false}; // which of gp gv ga gj gs are ever written
     bool usesTime = false;
+    bool conditionalWrites = false; // outputs are written only at samples where they are non-zero
     // ---- deliberate single-component corruption of a returned gradient (C19)
     int pert = PERT_NONE;
     int pert_index = 0;    // duration index / waypoint row / (unused)
